@@ -1,0 +1,10 @@
+//go:build !verif
+
+package frugal
+
+// Verification yield points. Without the "verif" build tag these are empty
+// functions that the compiler inlines away.
+
+func verifHook(point string, opid uint64) {}
+
+func verifHookCtx(point string, ctx FContext) {}
